@@ -823,6 +823,7 @@ func main() {
 	exit := 0
 	var knownHit []string
 	var reported []string
+	var unreproduced []string
 	// crashes
 	for _, c := range col.crashes {
 		if c.Index < 0 {
@@ -892,6 +893,33 @@ func main() {
 			return li < lj
 		})
 		x := unknown[0]
+		// a violation is reported with a replay file that reproduces it: the observed plans are
+		// re-executed in fresh processes (smallest first) until one fails the same way again
+		if a != "dut_crash" && a != "harness_or_oracle_panic" && !info.Race {
+			confirmed := -1
+			for ci := 0; ci < len(unknown) && ci < 5 && confirmed < 0; ci++ {
+				if len(unknown[ci].line.Plan) == 0 {
+					continue
+				}
+				tmp := filepath.Join(work, fmt.Sprintf("confirm-%s-%d.json", fileSafe(a), ci))
+				b, _ := json.Marshal(replayFile{Property: prop, Assertion: a, Seed: unknown[ci].line.Seed, Detail: unknown[ci].v.Detail, Plan: unknown[ci].line.Plan})
+				os.WriteFile(tmp, b, 0o644)
+				for k := 0; k < 2 && confirmed < 0; k++ {
+					if r, _ := replayOnce(bin, work, tmp); r != nil && r.Result != nil {
+						if _, ok := hasAssertion(r.Result, a); ok {
+							confirmed = ci
+						}
+					}
+				}
+			}
+			if confirmed < 0 {
+				line := fmt.Sprintf("assertion %s was raised in %d run(s) (first: %s) but none of the plans fails again when it is re-executed in a fresh process", a, len(unknown), oneLine(x.v.Detail, 300))
+				fmt.Printf("vcheck %s: WARNING: UNREPRODUCED %s\n", prop, line)
+				unreproduced = append(unreproduced, line)
+				continue
+			}
+			x = unknown[confirmed]
+		}
 		path := reportViolation(bin, work, prop, a, x.line, x.v, *tier)
 		// after minimisation the detail may have changed: re-classify once
 		if rf := readReplay(path); rf != nil {
@@ -932,6 +960,7 @@ func main() {
 			"inconclusive":              inconclusive,
 			"known_findings_hit":        knownHit,
 			"reported_assertions":       reported,
+			"unreproduced_observations": unreproduced,
 			"real_components":           componentsOf(prop, true),
 			"stub_components":           componentsOf(prop, false),
 			"seeds":                     fmt.Sprintf("VERIF_SEED=%d, run indices 0..%d", seed, launched-1),
